@@ -41,16 +41,38 @@ theorem addHandles_mem {next : Nat} : ∀ (reqs : List Req) (m : Nat → Option 
         omega
     · exact addHandles_mem rs _ r h hm
 
-/-- the invariant behind `C28_node` -/
+/-- a (node, client handle) pair is safe w.r.t. the monitor's map: the handle has been
+    handed out, and if it is mapped at all it is mapped to that node -/
+def Safe (next : Nat) (m : Nat → Option Node) (node : Node) (h : Nat) : Prop :=
+  h ≤ next ∧ ∀ n, m h = some n → n = node
+
+theorem safe_del {next : Nat} {m : Nat → Option Node} {node : Node} {h k : Nat}
+    (hs : Safe next m node h) : Safe next (setKey m k none) node h := by
+  refine ⟨hs.1, ?_⟩
+  intro n hn
+  simp only [setKey] at hn
+  split at hn
+  · simp at hn
+  · exact hs.2 n hn
+
+/-- the invariant behind `C28_node`: every item alive on the server and every stored
+    create request carries a safe (node, handle) pair -/
 def InvA (s : St) : Prop :=
   (∀ k n, s.handles k = some n → k ≤ s.next) ∧
-  (∀ it ∈ s.srv, it.handle ≤ s.next ∧ ∀ n, s.handles it.handle = some n → n = it.node)
+  (∀ it ∈ s.srv, Safe s.next s.handles it.node it.handle) ∧
+  (∀ e ∈ s.stored, Safe s.next s.handles e.node e.handle)
 
 theorem invA_empty : InvA St.empty := by
   simp [InvA, St.empty]
 
-/-- what the result loop preserves: `K` says every handle of this call is either still
-    mapped to its own node or deleted -/
+theorem mem_storePut {l : List Stored} {e x : Stored} (h : x ∈ storePut l e) : x ∈ l ∨ x = e := by
+  simp only [storePut, List.mem_append, List.mem_filter, List.mem_singleton] at h
+  rcases h with h | h
+  · exact Or.inl h.1
+  · exact Or.inr h
+
+/-- what the result loop preserves: every handle of this call is either still mapped to
+    its own node or deleted -/
 theorem addResults_inv (all : List (Req × Nat)) (bound : Nat)
     (hb : ∀ r h, (r, h) ∈ all → h ≤ bound) :
     ∀ (l : List (Req × Nat)) (oks : List Bool) (s : St),
@@ -65,40 +87,67 @@ theorem addResults_inv (all : List (Req × Nat)) (bound : Nat)
     have hmem : (r, h) ∈ all := hsub r h (by simp)
     have hsub' : ∀ r' h', (r', h') ∈ rest → (r', h') ∈ all :=
       fun r' h' hm => hsub r' h' (List.mem_cons_of_mem _ hm)
+    have hsafe : Safe s.next s.handles r.node h := by
+      refine ⟨by rw [hn]; exact hb r h hmem, ?_⟩
+      intro n hs
+      rcases hk r h hmem with h1 | h1
+      · rw [h1] at hs; simp at hs; exact hs.symm
+      · rw [h1] at hs; simp at hs
     simp only [addResults]
     split
-    · -- Good: the item exists on the server with its own handle
+    · -- Good: the item exists on the server with its own handle, the request is stored
       apply addResults_inv all bound hb rest oks _ hsub' (by simpa using hn) (by simpa using hk)
-      refine ⟨hi.1, ?_⟩
-      intro it hit
-      simp only [List.mem_append, List.mem_singleton] at hit
-      rcases hit with hit | rfl
-      · exact hi.2 it hit
-      · refine ⟨by rw [hn]; exact hb r h hmem, ?_⟩
-        intro n hs
-        rcases hk r h hmem with h1 | h1
-        · rw [h1] at hs; simp at hs; exact hs.symm
-        · rw [h1] at hs; simp at hs
-    · -- failed: the handle is deleted
+      refine ⟨hi.1, ?_, ?_⟩
+      · intro it hit
+        simp only [List.mem_append, List.mem_singleton] at hit
+        rcases hit with hit | rfl
+        · exact hi.2.1 it hit
+        · exact hsafe
+      · intro e he
+        rcases mem_storePut he with he | rfl
+        · exact hi.2.2 e he
+        · exact hsafe
+    · -- failed: the handle is deleted, the request is stored all the same
       apply addResults_inv all bound hb rest oks _ hsub' (by simpa using hn)
       · intro r' h' hm'
         simp only [setKey]
         split
         · exact Or.inr rfl
         · exact hk r' h' hm'
-      · refine ⟨?_, ?_⟩
+      · refine ⟨?_, ?_, ?_⟩
         · intro k n hs
           simp only [setKey] at hs
           split at hs
           · simp at hs
           · exact hi.1 k n hs
         · intro it hit
-          refine ⟨(hi.2 it hit).1, ?_⟩
-          intro n hs
-          simp only [setKey] at hs
-          split at hs
-          · simp at hs
-          · exact (hi.2 it hit).2 n hs
+          exact safe_del (hi.2.1 it hit)
+        · intro e he
+          rcases mem_storePut he with he | rfl
+          · exact safe_del (hi.2.2 e he)
+          · exact safe_del hsafe
+
+/-- registering fresh handles (all above `next`) keeps old pairs safe -/
+theorem safe_addHandles {s : St} {reqs : List Req} {node : Node} {h : Nat}
+    (hs : Safe s.next s.handles node h) :
+    Safe (s.next + reqs.length) (addHandles s.handles (assign s.next reqs)) node h := by
+  refine ⟨by have := hs.1; omega, ?_⟩
+  intro n hn
+  rw [addHandles_other] at hn
+  · exact hs.2 n hn
+  · intro r h' hm he
+    have := (mem_assign hm).2.1
+    have := hs.1
+    omega
+
+theorem handles_bound_add {s : St} {reqs : List Req} (hi : InvA s) (k : Nat) (n : Node)
+    (hs : addHandles s.handles (assign s.next reqs) k = some n) : k ≤ s.next + reqs.length := by
+  by_cases hk : ∃ r, (r, k) ∈ assign s.next reqs
+  · obtain ⟨r, hm⟩ := hk
+    exact (mem_assign hm).2.2
+  · rw [addHandles_other] at hs
+    · have := hi.1 k n hs; omega
+    · intro r h hm he; subst he; exact hk ⟨r, hm⟩
 
 theorem invA_add {s : St} {reqs : List Req} {oks : List Bool}
     (hi : InvA s) : InvA (add s reqs oks) := by
@@ -107,72 +156,34 @@ theorem invA_add {s : St} {reqs : List Req} {oks : List Bool}
     (fun r h hm => (mem_assign hm).2.2) _ oks _ (fun _ _ hm => hm) rfl
   · intro r h hm
     exact Or.inl (addHandles_mem reqs s.handles r h hm)
-  · refine ⟨?_, ?_⟩
-    · intro k n hs
-      simp only at hs ⊢
-      by_cases hk : ∃ r, (r, k) ∈ assign s.next reqs
-      · obtain ⟨r, hm⟩ := hk
-        exact (mem_assign hm).2.2
-      · rw [addHandles_other] at hs
-        · have := hi.1 k n hs; omega
-        · intro r h hm he; subst he; exact hk ⟨r, hm⟩
-    · intro it hit
-      simp only at hit ⊢
-      have hold := hi.2 it hit
-      refine ⟨by omega, ?_⟩
-      intro n hs
-      rw [addHandles_other] at hs
-      · exact hold.2 n hs
-      · intro r h hm he
-        have := (mem_assign hm).2.1
-        omega
+  · exact ⟨fun k n hs => handles_bound_add hi k n hs,
+      fun it hit => safe_addHandles (hi.2.1 it hit),
+      fun e he => safe_addHandles (hi.2.2 e he)⟩
 
 theorem invA_addErr {s : St} {reqs : List Req} (hi : InvA s) : InvA (addErr s reqs) := by
   unfold addErr
-  refine ⟨?_, ?_⟩
-  · intro k n hs
-    simp only at hs ⊢
-    by_cases hk : ∃ r, (r, k) ∈ assign s.next reqs
-    · obtain ⟨r, hm⟩ := hk
-      exact (mem_assign hm).2.2
-    · rw [addHandles_other] at hs
-      · have := hi.1 k n hs; omega
-      · intro r h hm he; subst he; exact hk ⟨r, hm⟩
-  · intro it hit
-    simp only at hit ⊢
-    have hold := hi.2 it hit
-    refine ⟨by omega, ?_⟩
-    intro n hs
-    rw [addHandles_other] at hs
-    · exact hold.2 n hs
-    · intro r h hm he
-      have := (mem_assign hm).2.1
-      omega
+  exact ⟨fun k n hs => handles_bound_add hi k n hs,
+    fun it hit => safe_addHandles (hi.2.1 it hit),
+    fun e he => safe_addHandles (hi.2.2 e he)⟩
 
 theorem removeLocal_inv : ∀ (ids : List Nat) (s : St) (acc : List Nat), InvA s →
-    InvA (removeLocal ids s acc).1 ∧ (removeLocal ids s acc).1.srv = s.srv
+    InvA (removeLocal ids s acc).1 ∧ (removeLocal ids s acc).1.srv = s.srv ∧
+    (removeLocal ids s acc).1.stored = s.stored
   | [], s, acc, hi => by simp [removeLocal, hi]
   | id :: ids, s, acc, hi => by
     simp only [removeLocal]
     split
-    · exact ⟨hi, rfl⟩
+    · exact ⟨hi, rfl, rfl⟩
     · rename_i it _
       have hi' : InvA { s with items := s.items.filter (·.id != id), handles := setKey s.handles it.handle none } := by
-        refine ⟨?_, ?_⟩
-        · intro k n hs
-          simp only [setKey] at hs
-          split at hs
-          · simp at hs
-          · exact hi.1 k n hs
-        · intro x hx
-          refine ⟨(hi.2 x hx).1, ?_⟩
-          intro n hs
-          simp only [setKey] at hs
-          split at hs
-          · simp at hs
-          · exact (hi.2 x hx).2 n hs
+        refine ⟨?_, fun x hx => safe_del (hi.2.1 x hx), fun e he => safe_del (hi.2.2 e he)⟩
+        intro k n hs
+        simp only [setKey] at hs
+        split at hs
+        · simp at hs
+        · exact hi.1 k n hs
       have := removeLocal_inv ids _ (acc ++ [id]) hi'
-      exact ⟨this.1, by rw [this.2]⟩
+      exact ⟨this.1, by rw [this.2.1], by rw [this.2.2]⟩
 
 theorem invA_remove {s : St} {ids : List Nat} (hi : InvA s) : InvA (remove s ids) := by
   unfold remove
@@ -181,11 +192,46 @@ theorem invA_remove {s : St} {ids : List Nat} (hi : InvA s) : InvA (remove s ids
   obtain ⟨s', gone, ok⟩ := res
   simp only at h ⊢
   split
-  · refine ⟨h.1.1, ?_⟩
-    intro it hit
-    simp only [List.mem_filter] at hit
-    exact h.1.2 it hit.1
+  · refine ⟨h.1.1, ?_, ?_⟩
+    · intro it hit
+      simp only [List.mem_filter] at hit
+      exact h.1.2.1 it hit.1
+    · intro e he
+      simp only [List.mem_filter] at he
+      exact h.1.2.2 e he.1
   · exact h.1
+
+theorem mem_freshIds {next : Nat} : ∀ {l : List Stored} {x : Stored}, x ∈ freshIds next l →
+    ∃ e ∈ l, x.node = e.node ∧ x.handle = e.handle
+  | [], _, h => by simp [freshIds] at h
+  | e :: es, x, h => by
+    simp only [freshIds, List.mem_cons] at h
+    rcases h with rfl | h
+    · exact ⟨e, by simp, rfl, rfl⟩
+    · obtain ⟨e', he', h1, h2⟩ := mem_freshIds h
+      exact ⟨e', List.mem_cons_of_mem _ he', h1, h2⟩
+
+/-- a recreation re-sends stored requests: the new server items and the new store carry
+    (node, handle) pairs that were stored — and therefore safe — before -/
+theorem invA_recreate {s : St} {order : List Nat} {ok : Bool} (hi : InvA s) :
+    InvA (recreate s order ok) := by
+  unfold recreate
+  have hsub : ∀ x ∈ freshIds s.nextItem (order.filterMap fun k => s.stored.find? (·.key == k)),
+      Safe s.next s.handles x.node x.handle := by
+    intro x hx
+    obtain ⟨e, he, h1, h2⟩ := mem_freshIds hx
+    simp only [List.mem_filterMap] at he
+    obtain ⟨k, _, hf⟩ := he
+    have := hi.2.2 e (List.mem_of_find?_eq_some hf)
+    rw [h1, h2]
+    exact this
+  split
+  · refine ⟨hi.1, ?_, hsub⟩
+    intro it hit
+    simp only [List.mem_map] at hit
+    obtain ⟨x, hx, rfl⟩ := hit
+    exact hsub x hx
+  · exact ⟨hi.1, by simp, by simp⟩
 
 theorem invA_runOps : ∀ (ops : List Op) (s : St), InvA s → InvA (runOps s ops)
   | [], s, hi => hi
@@ -196,6 +242,7 @@ theorem invA_runOps : ∀ (ops : List Op) (s : St), InvA s → InvA (runOps s op
     | add reqs oks => exact invA_add hi
     | addErr reqs => exact invA_addErr hi
     | remove ids => exact invA_remove hi
+    | recreate order ok => exact invA_recreate hi
 
 /-! ### (B) change notifications -/
 
